@@ -139,7 +139,12 @@ func checkC13(w *World, c *Check, tier string) {
 }
 
 func checkAppendGuard(w *World, c *Check, pr *prover, name string, app *ssa.Function) {
-	recv := app.Params[0]
+	checkAppendGuardOn(w, c, pr, name, app, app.Params[0], 0)
+}
+
+// checkAppendGuardOn: the rule for function app with the list (pointer) held in parameter recv. When app itself does not
+// append but hands the list's address to a small helper (appendIfMissing(&o.Items, ob)), the helper is judged instead.
+func checkAppendGuardOn(w *World, c *Check, pr *prover, name string, app *ssa.Function, recv *ssa.Parameter, depth int) {
 	n := 0
 	for _, b := range app.Blocks {
 		for _, in := range b.Instrs {
@@ -206,6 +211,32 @@ func checkAppendGuard(w *World, c *Check, pr *prover, name string, app *ssa.Func
 			}
 		}
 	}
+	if n == 0 && depth < 2 {
+		for _, call := range callsIn(app) {
+			cal := call.Common().StaticCallee()
+			if cal == nil || !w.InPkg(cal) || cal == app || cal.Blocks == nil || cal.Name() == "Contains" {
+				continue
+			}
+			for ai, a := range call.Common().Args {
+				if ai >= len(cal.Params) {
+					continue
+				}
+				a0 := unwrap(a)
+				isList := a0 == ssa.Value(recv)
+				if fp, ok := pr.fieldOf(a0); ok && len(fp.Idx) == 1 && fp.Root == pr.canonicalRoot(recv) {
+					if _, isPtr := types.Unalias(a0.Type()).Underlying().(*types.Pointer); isPtr {
+						isList = true
+					}
+				}
+				if isList {
+					if _, isPtr := types.Unalias(cal.Params[ai].Type()).Underlying().(*types.Pointer); isPtr {
+						checkAppendGuardOn(w, c, pr, name, cal, cal.Params[ai], depth+1)
+						return
+					}
+				}
+			}
+		}
+	}
 	if n == 0 {
 		c.bad("C13.guard", name+".Append", w.FuncPos(app), "no append to the receiver's list found in Append")
 	}
@@ -233,6 +264,28 @@ func checkContainsEq(w *World, c *Check, pr *prover, name string, contains, item
 	}
 	recvRoot := pr.canonicalRoot(contains.Params[0])
 	param := contains.Params[1]
+	// delegation: `return c.Items.Contains(r)` — membership is whatever the list's own Contains decides, and that
+	// method carries its own obligation
+	if len(eqCalls) == 0 {
+		for _, rb := range returnBlocks(contains) {
+			ret := rb.Instrs[len(rb.Instrs)-1].(*ssa.Return)
+			if len(ret.Results) != 1 {
+				continue
+			}
+			call, ok := unwrap(ret.Results[0]).(*ssa.Call)
+			if !ok {
+				continue
+			}
+			cal := call.Common().StaticCallee()
+			if cal == nil || cal == contains || cal.Name() != "Contains" || !w.InPkg(cal) || len(call.Common().Args) != 2 {
+				continue
+			}
+			if unwrap(call.Common().Args[1]) == ssa.Value(param) && derivesFromRoot(unwrap(call.Common().Args[0]), recvRoot, 0) && len(returnBlocks(contains)) == 1 {
+				c.ok("C13.eq", name+".Contains", w.FuncPos(contains), "delegates to "+funcName(cal)+" on its own list with its own argument")
+				return
+			}
+		}
+	}
 	good := false
 	for _, call := range eqCalls {
 		args := call.Common().Args
@@ -572,6 +625,14 @@ func checkC14Relation(w *World, c *Check, eq *ssa.Function, clos []*ssa.Function
 				}
 			}
 			if cal.Name() == "EqualFold" && len(call.Common().Args) == 2 {
+				u1, c1 := compOf(call.Common().Args[0], 0)
+				u2, c2 := compOf(call.Common().Args[1], 0)
+				if u1 != nil && u2 != nil && u1 != u2 && c1 == c2 {
+					compared[c1] = true
+				}
+			}
+			// a package predicate that folds its two string parameters (pathsEqual(u.Path, uw.Path))
+			if w.InPkg(cal) && len(call.Common().Args) >= 2 && foldsFirstTwoParams(cal) {
 				u1, c1 := compOf(call.Common().Args[0], 0)
 				u2, c2 := compOf(call.Common().Args[1], 0)
 				if u1 != nil && u2 != nil && u1 != u2 && c1 == c2 {
@@ -1134,4 +1195,48 @@ func keyExpr(f *ssa.Function, v ssa.Value, d int) (string, map[*ssa.Parameter]bo
 		return fmt.Sprintf("%T", v)
 	}
 	return rec(v, d), deps
+}
+
+// foldsFirstTwoParams: f compares (a value derived from) its first parameter with (one derived from) its second through
+// strings.EqualFold.
+func foldsFirstTwoParams(f *ssa.Function) bool {
+	if f.Blocks == nil || len(f.Params) < 2 {
+		return false
+	}
+	var from func(v ssa.Value, p *ssa.Parameter, d int) bool
+	from = func(v ssa.Value, p *ssa.Parameter, d int) bool {
+		if d > 6 {
+			return false
+		}
+		switch x := v.(type) {
+		case *ssa.Parameter:
+			return x == p
+		case *ssa.Call:
+			for _, a := range x.Common().Args {
+				if from(a, p, d+1) {
+					return true
+				}
+			}
+		case *ssa.Convert:
+			return from(x.X, p, d+1)
+		case *ssa.ChangeType:
+			return from(x.X, p, d+1)
+		case *ssa.Phi:
+			for _, e := range x.Edges {
+				if from(e, p, d+1) {
+					return true
+				}
+			}
+		}
+		return false
+	}
+	for _, call := range callsIn(f) {
+		if cal := call.Common().StaticCallee(); cal != nil && cal.Name() == "EqualFold" && len(call.Common().Args) == 2 {
+			a, b := call.Common().Args[0], call.Common().Args[1]
+			if (from(a, f.Params[0], 0) && from(b, f.Params[1], 0)) || (from(a, f.Params[1], 0) && from(b, f.Params[0], 0)) {
+				return true
+			}
+		}
+	}
+	return false
 }
